@@ -839,8 +839,37 @@ def check_encode(ctx: Ctx, rows: set[str] | None = None) -> None:
                 continue
             el = rm.el_param(m)
             flow = prog.flow(m)
+            dest_org = frozenset({("attr", ("param", el), "dest")})
+
+            def decided_on_dest(test: ast.AST, tnode: Node) -> bool:
+                """The test inspects the destination itself (re.search(pattern, dest), is_paired(dest), " " in dest)."""
+                for c in ast.walk(test):
+                    if isinstance(c, ast.Call) and any(origins(prog, m, a, tnode) == dest_org for a in c.args):
+                        return True
+                    if isinstance(c, ast.Compare) and isinstance(c.ops[0], (ast.In, ast.NotIn)) and origins(prog, m, c.comparators[0], tnode) == dest_org:
+                        return True
+                return False
+
+            def bare(e: ast.AST, node: Node, seen: frozenset = frozenset()) -> list[Node]:
+                """Nodes at which the unencoded destination enters the value `e` without a test of the destination deciding it."""
+                if isinstance(e, ast.Attribute) and origins(prog, m, e, node) == dest_org:
+                    return [node]
+                if isinstance(e, ast.IfExp):
+                    if decided_on_dest(e.test, node):
+                        return []
+                    return bare(e.body, node, seen) + bare(e.orelse, node, seen)
+                if isinstance(e, ast.Name):
+                    out: list[Node] = []
+                    for d in flow.reaching(node, e.id):
+                        if d.id in seen or d.kind != "assign" or d.value is None:
+                            continue
+                        if any(b.kind == "test" and decided_on_dest(b.ast, b) for b, _lab in all_guards(prog, m, d.node)):
+                            continue
+                        out += bare(d.value, d.node, seen | {d.id})
+                    return out
+                return []
+
             bare_sites = []
-            n_sites = 0
             for node in flow.cfg.nodes:
                 for ex in flow.node_exprs(node):
                     for sub in walk_no_nested(ex):
@@ -849,17 +878,13 @@ def check_encode(ctx: Ctx, rows: set[str] | None = None) -> None:
                             carriers.append(sub.value)
                         elif isinstance(sub, ast.Call) and isinstance(sub.func, ast.Attribute) and sub.func.attr == "format":
                             carriers += list(sub.args)
-                        elif isinstance(sub, ast.Assign) and not isinstance(sub.value, (ast.JoinedStr, ast.Call)):
-                            carriers.append(sub.value)
+                        elif isinstance(sub, ast.BinOp) and isinstance(sub.op, ast.Add):
+                            carriers += [x for x in (sub.left, sub.right) if isinstance(x, (ast.Name, ast.Attribute))]
                         for cexp in carriers:
-                            org = origins(prog, m, cexp, node)
-                            if org == frozenset({("attr", ("param", el), "dest")}) and isinstance(cexp, ast.Attribute):
-                                bare_sites.append((cexp, node))
-                            if any(_mentions(o, "dest") for o in org) or (
-                                isinstance(cexp, ast.Call) and any(chain_key(a) == f"{el}.dest" for a in cexp.args)):
-                                n_sites += 1
-            # sites where the dest is only compared (lookup of reference definitions) are not emissions
-            bare_sites = [(e, n) for e, n in bare_sites if not _only_compared(e)]
+                            if any(b.kind == "test" and decided_on_dest(b.ast, b) for b, _lab in all_guards(prog, m, node)):
+                                continue
+                            for bn in bare(cexp, node):
+                                bare_sites.append((cexp, bn))
             ctx.ob("R-ENCODE-dest", f"{m.qual} :: {t}.dest -> destination", not bare_sites,
                    "a destination may contain spaces, angle brackets or unbalanced parentheses (the parser accepts `<a b>`); "
                    "it must pass through an encoder that picks the `<...>` form, not be emitted as the bare attribute"
@@ -975,6 +1000,7 @@ def check_fence_bound(ctx: Ctx) -> None:
             cf = t[0]
             if any(isinstance(x, ast.Call) and call_name(prog, cf, x) in ("re.finditer", "re.findall") for x in walk_no_nested(cf.node)):
                 scan_calls.append((n, c, cf))
+                repo.func(cf.qual)  # anchor: stays a function in the inlined view
     ctx.require("R-BOUND", "call to the fence-length scan in the code renderer", len(scan_calls), 1)
     if not scan_calls or not mults:
         return
